@@ -40,6 +40,9 @@ PROPS = {
             "IdentitySet: operands of the in-place/binary operators are lists, tuples or IdentitySets, comparisons are between IdentitySets only (a builtin "
             "set operand would bring its own equality-based membership)",
             "wrong-error signatures carry an extra tag got=<exception type> so that one documented-error defect does not hide another",
+            "params avoid_known_p (default 0.8): that fraction of runs steers away from the triggers of the two findings reported for this engine "
+            "(a tuple as the non-mapping value of OffsetMapping.__setitem__; converting operations under a suspended get_references generator, "
+            "which otherwise occur in interleave_convert_p=0.3 of the remaining ReferenceCache runs), so that they cannot hide neighbours",
         ],
     },
 }
